@@ -15,6 +15,12 @@ USE_NAME = {"solution": "solution", "pp": "equilibrium_phases", "exchange": "exc
 DEL_NAME = {"solution": "solution", "pp": "equilibrium_phases", "exchange": "exchange", "surface": "surface",
             "ss": "solid_solutions", "gas": "gas_phase", "kinetics": "kinetics", "mix": "mix", "reaction": "reaction",
             "temperature": "temperature", "pressure": "pressure"}
+# every spelling StorageBinList::vopts offers for an item (the model resolves whatever is written, also abbreviations)
+DEL_ALIASES = {"solution": ["solution"], "pp": ["equilibrium_phases", "pp_assemblage"], "exchange": ["exchange"],
+               "surface": ["surface"], "ss": ["solid_solutions", "solid_solution", "ss_assemblage"], "gas": ["gas_phase"],
+               "kinetics": ["kinetics"], "mix": ["mix"], "reaction": ["reaction"],
+               "temperature": ["temperature", "reaction_temperature"], "pressure": ["pressure", "reaction_pressure"],
+               "cell": ["cell", "cells"], "all": ["all"]}
 SAVE_KINDS = ["solution", "pp", "exchange", "surface", "gas", "ss"]
 EMIX_KINDS = ["solution", "exchange", "gas", "kinetics", "pp", "ss", "surface"]
 MODIFY_KINDS = ["solution", "pp", "exchange", "surface", "ss", "gas", "kinetics", "reaction"]
@@ -49,6 +55,8 @@ def body(kind, item, id_, eq=None, comps=None):
     if kind == "ss":
         return [" CaSr", f" -comp Calcite {_v(0.01, id_):.6g}", f" -comp Strontianite {[0.001, 0.0][item % 2]}"]
     if kind == "gas":
+        if eq is not None:
+            return [" -fixed_volume", f" -volume {_v(1.0, id_):.6g}", f" -equilibrate {eq}", " CO2(g) 0"] + [[" Ntg(g) 0"], []][item % 2]
         extra = [[f" Ntg(g) 0.5"], []][item % 2]
         return [" -fixed_volume", " -volume 1", f" CO2(g) {_v(0.001, id_):.6g}"] + extra
     if kind == "kinetics":
@@ -115,15 +123,10 @@ def render_block(b, templates):
     if o == "del":
         ls = ["DELETE"]
         for l in b["lines"]:
-            if l[0] == "all":
-                ls.append(" -all")
-            elif l[0] == "cell":
-                ls.append(" -cell " + " ".join(fmt_tok(t) for t in l[1]))
-            else:
-                ls.append(f" -{DEL_NAME[l[1]]} " + " ".join(fmt_tok(t) for t in l[2]))
+            ls.append(f" -{l[0]} " + " ".join(fmt_tok(t) for t in l[2]))
         return ls
     if o == "cells":
-        return ["RUN_CELLS", " -cells " + " ".join(fmt_tok(t) for t in b["toks"])]
+        return ["RUN_CELLS", f" -{b.get('opt', 'cells')} " + " ".join(fmt_tok(t) for t in b["toks"])]
     if o == "emix":
         return [f"{KW[b['kind']]}_MIX {fmt_range(b['n'], b['m'])}"] + [f" {c} {f:.3g}" for c, f in b["comps"]]
     raise ValueError(o)
@@ -163,17 +166,9 @@ def model_block(b, templates):
     if o == "copy":
         return f"copy {b['kind']} {b['src']} {b['a']} {b['a'] if b['b'] is None else b['b']}"
     if o == "del":
-        ws = []
-        for l in b["lines"]:
-            if l[0] == "all":
-                ws.append("all")
-            elif l[0] == "cell":
-                ws.append("cell:" + ",".join(mtok(t) for t in l[1]))
-            else:
-                ws.append(f"{l[1]}:" + ",".join(mtok(t) for t in l[2]))
-        return "del " + " ".join(ws)
+        return "del " + " ".join(f"{l[0]}:" + ",".join(mtok(t) for t in l[2]) for l in b["lines"])
     if o == "cells":
-        return "cells " + " ".join(mtok(t) for t in b["toks"])
+        return f"cells {b.get('opt', 'cells')} " + " ".join(mtok(t) for t in b["toks"])
     if o == "emix":
         return f"emix {b['kind']} {b['n']} {b['n'] if b['m'] is None else b['m']} " + " ".join(str(c) for c, _ in b["comps"])
     raise ValueError(o)
@@ -216,15 +211,19 @@ class Shadow:
         return rng.choice(sorted(s)) if s and rng.random() < 0.85 else default
 
 
+RESERVED = {-1, -2, -5, -6}     # numbers under which the engine itself files intermediate entities
+
+
 def num(rng, neg=True):
     r = rng.random()
-    if r < 0.72:
+    if r < 0.68:
         return rng.randint(0, 5)
-    if r < 0.92:
+    if r < 0.88:
         return rng.randint(6, 11)
-    if r < 0.96 and neg:
-        return rng.randint(-20, -15)     # user numbers -1, -2, -5, -6 are scratch numbers of the engine itself
-    return rng.choice([0, 1, 20, 99, 1000, 214748])
+    if r < 0.94 and neg:
+        n = rng.choice([-3, -4, -7, -8, -20, -19, -18, -1000, -214748, -2147483])
+        return n
+    return rng.choice([0, 1, 20, 99, 1000, 214748, 2147483, 2147483640])
 
 
 def rng_range(rng, neg=True, p_range=0.4):
@@ -265,7 +264,7 @@ def gen_block(rng, sh, ids, n_templates, weights):
         if m is not None and m - n > 30:
             m = n + 3
         b = {"op": "def", "kind": k, "n": n, "m": m, "id": next(ids), "item": rng.randint(0, 11)}
-        if k in ("exchange", "surface") and rng.random() < 0.3:
+        if k in ("exchange", "surface", "gas") and rng.random() < 0.3:
             b["eq"] = sh.pick(rng, "solution", num(rng, False))
         if k == "mix":
             cs = sorted({sh.pick(rng, "solution", num(rng, False)) for _ in range(rng.randint(1, 3))})
@@ -323,23 +322,30 @@ def gen_block(rng, sh, ids, n_templates, weights):
         for _ in range(rng.randint(1, 3)):
             r = rng.random()
             if r < 0.08:
-                lines.append(["all"])
+                item, toks = "all", []
             elif r < 0.3:
-                lines.append(["cell", [del_tok(rng) for _ in range(rng.randint(0 if rng.random() < 0.1 else 1, 2))]])
+                item, toks = "cell", [del_tok(rng) for _ in range(rng.randint(0 if rng.random() < 0.1 else 1, 2))]
             else:
-                lines.append(["item", rng.choice(KINDS), [del_tok(rng) for _ in range(rng.randint(0 if rng.random() < 0.12 else 1, 3))]])
-        for l in lines:
-            if l[0] == "all" or (l[0] == "cell" and not l[1]):
+                item, toks = rng.choice(KINDS), [del_tok(rng) for _ in range(rng.randint(0 if rng.random() < 0.12 else 1, 3))]
+            name = rng.choice(DEL_ALIASES[item])
+            if rng.random() < 0.2:
+                # an abbreviation: find_option takes the first option it is a prefix of, which may be another item
+                name, item = name[:rng.randint(1, len(name))], None
+            lines.append([name, item, toks])
+        for name, item, toks in lines:
+            if item is None:
+                continue
+            if item == "all" or (item == "cell" and not toks):
                 for kk in KINDS:
                     sh.ex[kk].clear()
-            elif l[0] == "cell":
+            elif item == "cell":
                 for kk in KINDS:
-                    sh.remove(kk, l[1])
+                    sh.remove(kk, toks)
             else:
-                sh.remove(l[1], l[2])
+                sh.remove(item, toks)
         return {"op": "del", "lines": lines}
     if o == "cells":
-        return {"op": "cells", "toks": [[sh.pick(rng, "solution", num(rng))] if rng.random() < 0.7 else del_tok(rng)
+        return {"op": "cells", "opt": rng.choice(["cells", "cells", "cell", "c", "cel"]), "toks": [[sh.pick(rng, "solution", num(rng))] if rng.random() < 0.7 else del_tok(rng)
                                           for _ in range(rng.randint(1, 2))]}
     if o == "emix":
         k = rng.choice(EMIX_KINDS)
